@@ -1,6 +1,6 @@
 (* C06/Proofs.v -- soundness of Operator.derivative for every expression tree. *)
 From Coq Require Import Reals Lra Lia List Bool ZArith.
-From Verif Require Import Base.Num Base.Vec Base.VecR C06.Syntax Gen.UfuncDeriv C06.Model C06.Calc C06.Lin C06.LinMap C06.Leaves C06.Blocks.
+From Verif Require Import Base.Num Base.Vec Base.VecR C06.Syntax Gen.UfuncDeriv C06.Model C06.Calc C06.Lin C06.LinMap C06.Leaves C06.Blocks C06.PwNorm.
 Import ListNotations.
 Local Open Scope R_scope.
 
@@ -64,6 +64,9 @@ Definition lregular (l : leafR) (x : Rvec) : Prop :=
   match l with
   | LPow _ p => (p <= 0)%Z -> forall i, (i < length x)%nat -> nth i x 0 <> 0
   | LUf f _ => forall i, (i < length x)%nat -> uregular f (nth i x 0)
+  | LPwNorm n p w =>
+      if (p =? 1)%Z then forall i, (i < length x)%nat -> nth i x 0 <> 0   (* |.| has a kink at 0 *)
+      else forall j, (j < n)%nat -> 0 < nth j (pwnormsq n w x) 0            (* point-wise norm > 0 *)
   | _ => True
   end.
 Fixpoint regular (e : oexprR) (x : Rvec) : Prop :=
@@ -166,6 +169,8 @@ Proof.
     apply (blin_ext _ _ (vscal c)); [|apply blin_scale].
     intros d. cbn [leval]. unfold vscal. apply map_ext. intros a. rewrite Hc. reflexivity.
   - apply Nat.eqb_eq in Hw. cbn [PR adom aran ader]. apply Habs. exact Hw.
+  - apply andb_prop in Hw as [Hw _]. apply Nat.eqb_eq in Hw. rewrite list_sum_repeat.
+    apply pwinner_blin. exact Hw.
 Qed.
 
 Lemma leval_len l y : lwt P l = true -> length y = sdim (ldom P l) ->
@@ -183,6 +188,13 @@ Proof.
     destruct (Hh (fun _ => y) _ (curve_const _ y Hy)) as (_ & _ & Hl & _). apply (Hl 0).
   - apply Nat.eqb_eq in Hw. cbn [PR ader adom aran] in *.
     destruct (Habs k x Hw) as [_ Hb]. apply (blin_len _ _ _ _ Hb). exact Hy.
+  - rewrite list_sum_repeat in Hy. destruct (p =? 1)%Z.
+    + unfold pwnorm1. apply pwsum_len; auto. intros a b Ha _. rewrite map_length; exact Ha.
+    + unfold pwnorm2, pwnormsq. rewrite map_length. apply pwsum_len; auto.
+      intros a b Ha Hb. unfold vmul; apply vmap2_len; assumption.
+  - rewrite list_sum_repeat in Hy. apply andb_prop in Hw as [Hw _]. apply Nat.eqb_eq in Hw.
+    unfold pwinner. apply pwsum_len; auto.
+    intros a b Ha Hb. unfold vmul; apply vmap2_len; assumption.
 Qed.
 
 (* the bundle proved of every derivative object *)
@@ -263,6 +275,26 @@ Proof.
     destruct (Habs k x Hx) as [Hh Hb].
     unfold sound. cbn [eval leval is_lin llin wt lwt dom ran ldom lran PR ader adom aran].
     ssplit; auto. apply Nat.eqb_eq. exact Hx.
+  - (* LPwNorm *)
+    cbn [lwt] in Hw. apply andb_prop in Hw as [Hp Hk].
+    assert (Hp' : p = 1%Z \/ p = 2%Z) by (apply orb_prop in Hp as [E|E]; apply Z.eqb_eq in E; auto).
+    destruct Hp' as [-> | ->];
+      cbn [lderiv ldom lran leval lregular sdim Z.eqb Pos.eqb] in *; rewrite ?list_sum_repeat in *;
+      unfold sound; cbn [eval leval is_lin llin wt lwt dom ran ldom lran sdim Z.eqb Pos.eqb]; rewrite ?list_sum_repeat.
+    + assert (Hlen : length (map (@nsign R _) x) = (length w * n)%nat) by (rewrite map_length; exact Hx).
+      ssplit; auto.
+      * intros g d Hc. apply (pwnorm1_curve n w g x d Hc Hreg).
+      * apply pwinner_blin. exact Hlen.
+      * rewrite Hlen, Nat.eqb_refl, Hk. reflexivity.
+    + assert (HNl : length (pwnorm2 P n w x) = n).
+      { unfold pwnorm2, pwnormsq. rewrite map_length. apply pwsum_len; auto.
+        intros a b Ha Hb. unfold vmul; apply vmap2_len; assumption. }
+      assert (Hlen : length (pwdiv n (length w) x (pwnorm2 P n w x)) = (length w * n)%nat)
+        by (apply pwdiv_len; assumption).
+      ssplit; auto.
+      * intros g d Hc. apply (pwnorm2_curve af ad adm arn n w g x d Hc Hreg).
+      * apply pwinner_blin. exact Hlen.
+      * rewrite Hlen, Nat.eqb_refl, Hk. reflexivity.
 Qed.
 
 (* ---------- expressions ---------- *)
